@@ -118,6 +118,8 @@ def _query(repo, exc_cls, ranges, a, b):
     try:
         r = it.call(it.getattr(tab, "get_exception"), [a, b])
     except PyRaise as e:
+        if not e.reportable:
+            raise AnalysisError("get_exception: the evaluator produced %s while executing the analysed code (model gap, not a verdict)" % e)
         return "raises %s" % e, entries
     for i, x in enumerate(entries):
         if r is x:
@@ -176,6 +178,8 @@ def check_guard(sink, repo, m):
     try:
         d = it.call(it.getattr(entries[0], "get"), [])
     except PyRaise as e:
+        if not e.reportable:
+            raise AnalysisError("ExceptionAnalysis.get(): the evaluator produced %s (model gap, not a verdict)" % e)
         d = "raises %s" % e
     okr = isinstance(d, dict) and d.get("start") is S and d.get("end") is E
     sink.count("entry_ranges")
@@ -499,7 +503,16 @@ def check_call_site(sink, repo, m):
                 try:
                     d = it.call(it.getattr(ea, "get"), [])
                 except PyRaise as e:
-                    d = "get() raises %s (handler block %s)" % (e.name, "unresolved" if "NoneType" in str(e) else "?")
+                    # get() cannot render an entry whose handler block is None; whether that is the case is read off the
+                    # textual rendering, which prints the block name or None
+                    try:
+                        txt = it.call(it.getattr(ea, "show_buff"), [])
+                    except PyRaise as e2:
+                        raise AnalysisError("ExceptionAnalysis.get()/show_buff(): the evaluator produced %s / %s (model gap)" % (e, e2))
+                    if isinstance(txt, str) and txt.rstrip().endswith("None)"):
+                        d = "handler block None (show_buff: %s)" % txt.splitlines()[-1].strip()
+                    else:
+                        raise AnalysisError("ExceptionAnalysis.get(): the evaluator produced %s (model gap, not a verdict)" % e)
             hb = d["list"][0] if isinstance(d, dict) and isinstance(d.get("list"), list) and len(d["list"]) == 1 else None
             ok = (isinstance(d, dict) and Lin.of(d.get("start")) == try_lo and Lin.of(d.get("end")) == try_hi and isinstance(hb, dict)
                   and hb.get("name") == "Ltype7;" and Lin.of(hb.get("idx")) == handler_at and hname is not None and hb.get("basic_block") == hname)
@@ -582,8 +595,8 @@ def check_pairing(sink, repo):
             got[repr(Lin.of(z[0]))] = [(h[0], Lin.of(h[1])) for h in z[2:]]
         err = None
     except PyRaise as e:
-        if e.name in ("AttributeError", "TypeError", "NameError"):
-            raise AnalysisError("determineException raised %s on the multi-try model" % e)
+        if not e.reportable:
+            raise AnalysisError("determineException: the evaluator produced %s on the multi-try model (model gap, not a verdict)" % e)
         got, err = {}, e.name
     for i, rix in enumerate(refs):
         key = repr(Lin.atom("t%d_start" % i) * 2)
